@@ -191,7 +191,7 @@ impl Ctx {
             for (n, k) in m.adds.iter().enumerate() {
                 let id = self.ids.get(k).ok_or("unknown key")?;
                 p.add(&format!("p{}", n), uid_encode(id)).unwrap();
-                t.push_str(&format!("{{id:$p{}}} ", n));
+                t.push_str(&format!("{}{{id:$p{}}} ", if n > 0 { "," } else { "" }, n));
             }
             t.push_str("] ");
         }
